@@ -195,7 +195,7 @@ package combinator
 
 //@ func (s *sequence) parseNext(i int, node parsley.Node, depth int, ctx *parsley.Context, lrc data.IntMap, pos parsley.Pos, merge bool) (done bool)
 //@   flag slow
-//@   ghost_at store#2 when fresh(s.nodes) :: parsley.GhostSpare(array(s.nodes)) = true
+//@   ghost_at store:nodes#1 when fresh(s.nodes) :: parsley.GhostSpare(array(s.nodes)) = true
 //@   requires seqOK(s, ctx) && seqShape(s) && 0 <= depth && depth <= len(s.nodes) && lookupOf(s.parserLookUp, depth) != nil && i >= 0
 //@   requires validSeqNode(node) && pos <= node.ReaderPos()
 //@   requires parsley.WfCtx(ctx) && parsley.WfCache(ctx) && parsley.InInput(ctx.Reader(), pos) && parsley.GhostLo <= pos && parsley.GhostHi == eof(ctx, pos) && parsley.GhostSeqMark <= allocmark()
